@@ -14,11 +14,17 @@ static int hx_nstat;
 static int hx_fail_count;
 static int hx_samples;
 static uint64_t hx_seed = 1;
+static int hx_exact;              /* HX_EXACT=1: exact-size malloc blocks (tail flush against the ASan red zone), no canaries */
+static unsigned hx_default_off;   /* HX_OFF=0..7: start offset of every hx_buf buffer (alignment sweep of C12) */
 
 static inline void hx_init(void)
 {
     const char *s = getenv("VERIF_SEED");
     if (s) hx_seed = strtoull(s, 0, 10);
+    s = getenv("HX_EXACT");
+    if (s) hx_exact = atoi(s);
+    s = getenv("HX_OFF");
+    if (s) hx_default_off = (unsigned)atoi(s) & 15;
     setvbuf(stdout, 0, _IOLBF, 0);
 }
 static inline long long *hx_statp(const char *name)
@@ -75,6 +81,7 @@ static inline void hx_fill(uint8_t *p, size_t n, int pattern, unsigned role)
 /* exact-size buffer followed (and preceded) by canaries; returned pointer has alignment offset `off` */
 static inline uint8_t *hx_buf_off(size_t n, unsigned off)
 {
+    if (hx_exact) { uint8_t *b = (uint8_t *)malloc(n + off); if (b) memset(b, 0xAA, n + off); return b + off; }
     uint8_t *base = (uint8_t *)malloc(n + 2 * HX_CANARY + 16 + 16);
     uint8_t *p = base + 16 + HX_CANARY + off; /* base is 16-aligned from malloc */
     memcpy(base, &base, sizeof(base));
@@ -84,14 +91,15 @@ static inline uint8_t *hx_buf_off(size_t n, unsigned off)
     memset(p + n, 0xC5, HX_CANARY);
     return p;
 }
-static inline uint8_t *hx_buf(size_t n) { return hx_buf_off(n, 0); }
+static inline uint8_t *hx_buf(size_t n) { return hx_buf_off(n, hx_default_off); }
 static inline int hx_buf_ok(const uint8_t *p, size_t n)
 {
+    if (hx_exact) return 1;
     for (int i = 0; i < HX_CANARY; i++) if (p[n + i] != 0xC5 || p[-1 - i] != 0xC5) return 0;
     return 1;
 }
-static inline void hx_free_off(uint8_t *p, unsigned off) { free(p - 16 - HX_CANARY - off); }
-static inline void hx_free(uint8_t *p) { hx_free_off(p, 0); }
+static inline void hx_free_off(uint8_t *p, unsigned off) { if (hx_exact) free(p - off); else free(p - 16 - HX_CANARY - off); }
+static inline void hx_free(uint8_t *p) { hx_free_off(p, hx_default_off); }
 static inline void hx_hex(char *dst, const uint8_t *p, size_t n)
 {
     static const char d[] = "0123456789abcdef";
